@@ -706,6 +706,7 @@ where
     let shard_index = self.shared.get_shard_index_from_hash(hash);
     let shard = &self.shared.store.shards[shard_index];
 
+    let mut stale_hit = false;
     let hit_value = {
       let guard = shard.map.read();
       if let Some((found_key, entry)) = guard.get_key_value(key) {
@@ -736,7 +737,7 @@ where
             if now_nanos < expires_at_nanos + grace_period.as_nanos() as u64
               && !entry.is_idle_expired(self.shared.time_to_idle)
             {
-              self.trigger_background_load(key);
+              stale_hit = true;
               Some(entry.value())
             } else {
               None
@@ -749,6 +750,11 @@ where
         None
       }
     };
+
+    if stale_hit {
+      // after the shard guard is gone, so that the pending lock can be waited for
+      self.trigger_background_load(key);
+    }
 
     if let Some(val) = hit_value {
       return val;
@@ -764,27 +770,25 @@ where
     K: Clone + 'static,
     V: 'static,
   {
-    // Try to acquire the pending_loads lock without blocking.
-    // If we can't get it, it means another thread is already handling
-    // a load for this or another key. It's safe to just give up; that
-    // other thread's work will likely benefit us anyway.
+    // The stripe lock may be busy with a load of *another* key: giving up then would serve the
+    // stale value without ever refreshing it, so wait for the lock (the caller holds no shard
+    // lock at this point).
     let hash = crate::store::hash_key(&self.shared.store.hasher, &key);
     let index = hash as usize & (self.shared.pending_loads.len() - 1);
     let pending_loads_lock = &self.shared.pending_loads[index];
-    if let Some(mut pending) = pending_loads_lock.try_lock() {
-      // Double-check that another thread didn't start the refresh
-      // while we were waiting for the lock.
-      if pending.contains_key(key) {
-        return;
-      }
-
-      // We are the leader for this refresh.
-      let future = Arc::new(LoadFuture::new());
-      pending.insert(key.clone(), future.clone());
-
-      // Spawn the refresh task.
-      CacheShared::spawn_loader_task(Arc::clone(&self.shared), key.clone(), future);
+    let mut pending = pending_loads_lock.lock();
+    // A refresh (or load) of this key is already in flight.
+    if pending.contains_key(key) {
+      return;
     }
+
+    // We are the leader for this refresh.
+    let future = Arc::new(LoadFuture::new());
+    pending.insert(key.clone(), future.clone());
+    drop(pending);
+
+    // Spawn the refresh task.
+    CacheShared::spawn_loader_task(Arc::clone(&self.shared), key.clone(), future);
   }
 
   /// Private helper for the "miss" path of `fetch_with`.
@@ -816,8 +820,8 @@ where
       // 3. No load is in flight. One may have *completed* between our cache miss and this
       //    lock (value inserted, pending entry removed): look again, or the loader would run
       //    a second time for the same miss. Taking the shard lock under the pending lock is
-      //    safe: the only path that nests them the other way round (the stale-refresh
-      //    trigger) uses try_lock.
+      //    safe: no path takes them the other way round (the stale-refresh trigger runs after
+      //    its shard guard is released).
       if let Some(value) = self.peek(key) {
         self.shared.metrics.record_hits(index, 1);
         return value;
